@@ -49,6 +49,7 @@ package bit
 //@ func Writer.WriteBits
 //@   prop C14
 //@   opaque bitOf
+//@   timeout 60
 //@   note the bit relations between u and the bytes written are discharged by bit-vector reasoning
 //@   requires wSane(w) && w.w.n < 72057594037927900 && numBits >= 0 && numBits <= 64
 //@   modifies w.b, w.count, w.w.out, w.w.n
